@@ -5,12 +5,12 @@ ROOT = os.path.dirname(os.path.dirname(os.path.abspath(__file__)))
 
 CHECKS = {
     "C01": dict(
-        text="Seeded search over generated control-flow programs x valuations x scheduler policies on the real engine under the simulator; the exact quiescence oracle ('no runnable task, nothing in flight') decides at every quiescent point that each unfinished process waits on a deliverable interrupt / un-fired timeout / running sub-process, and bounded liveness (every interrupt answered => terminal event) at the last one. Sampling, not enumeration: a clean batch is evidence, not proof.",
+        text="Seeded search over generated control-flow programs (a fifth with lifecycle-hook acts on workflow and steps) x valuations x scheduler policies on the real engine under the simulator; the exact quiescence oracle ('no runnable task, nothing in flight') decides at every quiescent point that each unfinished process waits on a deliverable interrupt / un-fired timeout / running sub-process, and bounded liveness (every interrupt answered => terminal event) at the last one. Sampling, not enumeration: a clean batch is evidence, not proof.",
         note="Trusted: the simulator's executor/clock/id shims, hook H1 (live dump reads the cache only). Assumes a monotone clock and in-process clients; storage errors are not injected.",
         technique="deterministic simulation: seeded schedule search + quiescence invariant + bounded liveness",
         ref="DESIGN.md §6 C01"),
     "C02": dict(
-        text="Seeded search over generated programs x scripted clients using all ten action kinds (duplicates, missing/extra options) x an adversary aiming any action at any task ever seen, under seeded schedules; a monitor over the complete trace of task state writes (hook H2) checks stage monotonicity, finality of terminal states and the single catch exception. Sampling: evidence, not proof.",
+        text="Seeded search over generated programs (catches, generators, lifecycle hooks) x scripted clients using all ten action kinds (duplicates, missing/extra options), a sixth of the cases playing a multi-step cancel history on purpose x an adversary aiming any action at any task ever seen, under seeded schedules; a monitor over the complete trace of task state writes (hook H2) checks stage monotonicity, finality of terminal states and the single catch exception. Sampling: evidence, not proof.",
         note="Trusted: hook H2 reports every state write (Task::set_state/set_pure_state are the only writers); simulator shims. Layer 1: client calls are atomic with respect to engine tasks (racing threads are C05's layer-2 part).",
         technique="deterministic simulation: seeded schedule + adversarial client histories, transition-trace monitor",
         ref="DESIGN.md §6 C02"),
@@ -66,7 +66,7 @@ CHECKS = {
         technique="deterministic simulation: seeded interleaving of sub-process return and parent activity, trace/dump oracle",
         ref="DESIGN.md §6 C15"),
     "C16": dict(
-        text="Seeded search over models with parallel/sequence/block acts over lists of length 0..5 (nested blocks), setup acts bound to all five hook kinds on workflow/step/act, and a push into an open step, under seeded answer orders and schedules; counting oracles over stream, trace and final live dump: one group per element with its own $index/$value, all-at-once vs in-order, generator completes last, hook firings = matching lifecycle events, one push = one act. Sampling: evidence, not proof.",
+        text="Seeded search over models with parallel/sequence/block acts over lists of length 0..5 (nested blocks), setup acts bound to all five hook kinds on workflow/step/act, a push into an open step, and a fifth of the hook-free models inside a loop (every visit generates its own groups), under seeded answer orders and schedules; counting oracles over stream, trace and final live dump: one group per element with its own $index/$value, all-at-once vs in-order, generator completes last, hook firings = matching lifecycle events, one push = one act. Sampling: evidence, not proof.",
         note="Trusted: H1/H2; the reading of `on: step` (fires when a step completes) and of before_update/updated (acts created/closed under the owner) stated in the evidence assumptions. Hooks are only counted for processes that finished.",
         technique="deterministic simulation: seeded answer orders/schedules, counting oracle over stream and trace",
         ref="DESIGN.md §6 C16"),
@@ -91,7 +91,7 @@ CHECKS = {
         technique="deterministic simulation: discrete-event clock, seeded tick phase / answer instant / clock-jump faults, timeline reference model",
         ref="DESIGN.md §6 C19"),
     "C08": dict(
-        text="Seeded search over programs (control flow, catches, generated acts) x clients using all action kinds x dispatch interleavings (every message dispatch is an independently scheduled task): the complete stream of a match-all channel is checked against the H2 trace and live dumps for multiplicity per task, created-before-terminal and parent-before-child in generation order (id shim), completeness, field agreement, unique ids. Sampling: evidence, not proof.",
+        text="Seeded search over programs (control flow, catches, generated acts, lifecycle hooks) x clients using all action kinds, an eighth answering inside the message handler and ending every interrupt the same way x dispatch interleavings (every message dispatch is an independently scheduled task): the complete stream of a match-all channel is checked against the H2 trace and live dumps for multiplicity per task, created-before-terminal and parent-before-child in generation order (id shim), completeness, field agreement, unique ids. Sampling: evidence, not proof.",
         note="Trusted: id shim sequence numbers as generation order; H2 trace for final states. Delivery order of independently dispatched messages is not constrained (the statement speaks of generation).",
         technique="deterministic simulation: seeded dispatch interleavings, stream/trace consistency monitor",
         ref="DESIGN.md §6 C08"),
